@@ -54,7 +54,7 @@ RULES = [
     R(r"read\.rs", r".*", [H("shapes")]),
     R(r"src/array\.rs", r"ComputedArray::(new|len|is_empty)$", [M("HandRead.compLen"), M("ReadIter.computedLen"), H("iters"), H("traverse.debug")]),
     R(r"src/array\.rs", r"ComputedArray::iter$", [M("ReadIter.computedIterStep"), H("iters")]),
-    R(r"src/array\.rs", r"ComputedArray::get$", [M("HandRead.compGet"), M("ReadIter.computedGet"), H("iters"), H("traverse.debug")]),
+    R(r"src/array\.rs", r"ComputedArray::get$", [M("HandRead.compGet"), M("HandIter.travGet"), M("ReadIter.computedGet"), H("iters"), H("traverse.debug")]),
     R(r"src/array\.rs", r"VarLenArray::iter$", [M("ReadIter.varIterStep"), H("iters")]),
     R(r"src/array\.rs", r"VarLenArray::get$", [M("ReadIter.varGet"), H("iters")]),
     R(r"src/array\.rs", r".*", [H("iters")]),
